@@ -173,6 +173,15 @@ def gen_points(rng, poly, lattice):
     for a_ in anchors:
         sc_ = size * 10.0 ** -float(rng.integers(2, 5))
         pts.append(a_ + rng.uniform(-1, 1, size=(2, 2)) * sc_)
+    # the same location asked for several times in one call (stations sharing a site),
+    # next to each other and with other points - far outside the polygon - in between
+    base = np.vstack(pts)
+    far = np.array([[hi[0] + 5 * size, hi[1] + 5 * size], [lo[0] - 7 * size, lo[1]]])
+    rep = base[rng.integers(0, len(base), size=6)]
+    inter = []
+    for q in rep:
+        inter += [q, far[0], q, q, far[1], far[0], q]
+    pts.append(np.array(inter))
     return np.ascontiguousarray(np.vstack(pts), dtype=float), size
 
 
